@@ -382,6 +382,7 @@ fn main() {
     let out = args[1].clone();
     quiet_panics();
     dropshot::verif::install_memory_sink();
+    verif_harness::campaign_budget(&out);
     httpc::stop_early_into(&out);
     let seed = seed_from_env();
     let rt = tokio::runtime::Builder::new_multi_thread().worker_threads(2).enable_all().build().unwrap();
